@@ -219,7 +219,21 @@ def _rw_vec_reserve(text):
     return re.subn(r'\b(self|this)\.reserve\(([^;]*)\);', r'\1.reserve_(\2);', text)
 
 
+def _rw_drop_where_bounds(text):
+    # RW31: in the `where` clause of a *_filter_into method keep only `I: orx_concurrent_iter::ConcurrentIter,` --
+    # the closure / IntoIterator / Fallible bounds only constrain values that are passed through unchanged
+    m = re.search(r'where\s*\n(.*?)\{', text, re.S)
+    if not m:
+        return text, 0
+    lines = m.group(1).split('\n')
+    kept = [l for l in lines if 'ConcurrentIter' in l or not l.strip()]
+    if len(kept) == len(lines):
+        return text, 0
+    return text[:m.start(1)] + '\n'.join(kept) + text[m.end(1):], 1
+
+
 REWRITES = {
+    'RW31': ('where-clause bounds on closures / IntoIterator / Fallible dropped (values only passed through to the kernels)', _rw_drop_where_bounds),
     'RW30': ('self.reserve(ARG) -> self.reserve_(ARG) (extension method stating the std contract of Vec::reserve on the capacity, which the vstd spec omits: assumed, T4; ARG verbatim)', _rw_vec_reserve),
     'RW29': ('fn f(mut self, ..) -> fn f(self, ..) { let mut this = self; .. } with self renamed to this in the body (Verus has no `mut self`)', _rw_mut_self),
     'RW27': ('closure bound `M: Fn(I::Item) -> O + Send + Sync + Clone` dropped (the closure is passed through to map_col unchanged)', _rw_drop_closure_bounds),
